@@ -25,6 +25,8 @@ serde_json = "1"
 async-trait = "0.1"
 hmac = "=0.13.0-pre.5"
 sha2 = "=0.11.0-pre.5"
+sha1 = "=0.11.0-pre.5"
+base64-simd = "0.8"
 hex-simd = "0.8"
 time = {{ version = "0.3", features = ["formatting", "macros"] }}
 '''
